@@ -216,6 +216,26 @@ def handle (kc : KdfCache) (line : String) : IO String := do
       else pure P
     let (res, src, k) := passDecryptIO P' (unhex pw) { inp := b, script := parseRd rsc } (mkSnk ws fs)
     pure (fmtStream res src k)
+  | ["serialize", key, aad, ctrmode, chunks] =>
+    let cl := if chunks == "-" then [[]] else (chunks.splitOn ",").map unhex
+    let cf : Nat → Bytes := if ctrmode == "zero" then (fun _ => zeros 8) else if ctrmode == "junk" then (fun i => be64 (i * 7919 + 13)) else be64
+    pure ("ok " ++ hex (serialize P.aead (unhex key) (unhex aad) cf 0 cl))
+  | ["key_file", s, spk, rs, e, epk, pk, ctrmode, chunks] =>
+    let cl := if chunks == "-" then [[]] else (chunks.splitOn ",").map unhex
+    let cf : Nat → Bytes := if ctrmode == "zero" then (fun _ => zeros 8) else if ctrmode == "junk" then (fun i => be64 (i * 7919 + 13)) else be64
+    match Noise.writeMessage P Generated.encPrologue (unhex s) (unhex spk) (unhex rs) (unhex e) (unhex epk) (unhex pk) with
+    | .error e => pure s!"err {noiseErr e}"
+    | .ok (msg, h) => pure ("ok " ++ hex (Generated.encPrologue ++ msg ++ serialize P.aead (P.hkdfFile (unhex pk) h) [] cf 0 cl))
+  | ["pass_file", pw, salt, ctrmode, chunks] => do
+    let cl := if chunks == "-" then [[]] else (chunks.splitOn ",").map unhex
+    let cf : Nat → Bytes := if ctrmode == "zero" then (fun _ => zeros 8) else if ctrmode == "junk" then (fun i => be64 (i * 7919 + 13)) else be64
+    let key ← cachedKdf kc (unhex pw) (unhex salt)
+    pure ("ok " ++ hex (Generated.encPassMagic ++ unhex salt ++ serialize P.aead key Generated.encPassMagic cf 0 cl))
+  | ["key_open", r, rpk, hdr] =>
+    let h := unhex hdr
+    match Noise.readMessage P (h.take 4) (unhex r) (unhex rpk) ((h.drop 4).take 128) with
+    | .error e => pure s!"err {noiseErr e}"
+    | .ok (pl, spk, hh) => pure s!"ok {hexOrDash pl} {hex spk} {hex hh} {hex (P.hkdfFile pl hh)}"
   | ["hkdf_file", pk, h] => pure ("ok " ++ hex (P.hkdfFile (unhex pk) (unhex h)))
   | ["b64enc", d] => pure ("ok " ++ hexOrDash (B64.encode (unhex d)))
   | ["b64dec", s] => pure (fmtOpt (B64.decode (unhex s)))
